@@ -59,7 +59,7 @@ TRUSTED_BASE = ["tools/fileio_spec.py (independent Python decoders for the eight
 FORMATS = ["hex", "srec", "bin", "wdc", "uf2", "elf", "amiga", "macho"]
 FILLER = {"bin", "elf", "uf2", "amiga", "macho"}        # formats that describe one contiguous range
 EXT = {"hex": "hex", "srec": "srec", "bin": "bin", "wdc": "wdc", "uf2": "uf2", "elf": "elf", "amiga": "out", "macho": "macho"}
-MODEL_WR = {"hex", "srec", "bin", "wdc", "uf2"}                       # formats whose writer is modelled in Lean (extended below)
+MODEL_WR = {"hex", "srec", "bin", "wdc", "uf2", "elf"}                # formats whose writer is modelled in Lean
 
 
 def cpus_of(ctx):
@@ -124,6 +124,23 @@ def gen_cases(ctx):
             if hi_ - lo_ >= (1 << 22) and fmt in FILLER:
                 continue          # those files are as large as the span
             cases.append((fmt, img))
+    # ELF: every CPU of cpu_list once (the e_machine / e_flags / EI_CLASS / EI_OSABI switch of write_elf_header), in both byte
+    # orders for the ELF64 and the special-cased CPUs; many symbols (more than one 32 KiB symbol pool), long names, no symbols
+    for k, info in enumerate(ctx.notes["cpus_all"]):
+        d = G.data_bytes(rng, rng.choice([1, 2, 3, 4, 5, 7, 8, 9, 33]))
+        seg = [(rng.choice([0, 0x100, 0xfffe, 0x12345, 0x7ffffffd, 0x80000000, 0xffffffff - len(d) - k % 3]), d)]      # high <= 0xfffffffe
+        ends = ["b", "l"] if info["name"] in ("arm", "arm64", "riscv", "riscv64", "ebpf", "mips", "powerpc", "cell", "ps2_ee", "avr8", "msp430") else [rng.choice([None, "b", "l"])]
+        for e in ends:
+            img = H(seg, cpu=info["name"], endian=e, entry=rng.choice([None, seg[0][0], 0, 0xfffffffe]),
+                    syms=[("s%d" % j, rng.randrange(1 << 32), rng.random() < 0.7) for j in range(rng.choice([0, 1, 2, 5]))])
+            img["klass"] = "elf-cpu"
+            cases.append(("elf", img))
+    many = [("sym_%04d_%s" % (j, "x" * (j % 23)), (j * 0x01010101) & 0xffffffff, j % 3 != 0) for j in range(ctx.scale(1500, 4000))]
+    longn = [("L" * n, 0x1000 + n, True) for n in (1, 2, 126, 127, 128, 129, 200, 253, 254)]
+    for cpu, e, sy in (("arm", "b", many), ("riscv64", None, many), ("msp430", None, longn), ("arm64", "b", longn), ("ebpf", "l", longn)):
+        img = H([(0x8000, G.data_bytes(rng, 37))], cpu=cpu, endian=e, entry=0x8000, syms=sy)
+        img["klass"] = "elf-syms"
+        cases.append(("elf", img))
     # one long contiguous run (> 64 KiB) : the 65536-byte block buffer of the WDC writer, 4096 hex records
     long_img = H([(0x1fff0, G.data_bytes(rng, 65536 + 40, "rand"))], cpu="65816")
     for fmt in ("wdc", "hex", "srec"):
@@ -430,8 +447,11 @@ def correspondence(ctx, corr):
     sel = [i for i, (fmt, img) in enumerate(cases) if fmt in MODEL_WR and G.low_high(img)[1] - G.low_high(img)[0] < MODEL_SPAN
            # the WDC model appends to its block buffer with `buf ++ [b]` (quadratic): the 64 KiB run costs ~18 s, thorough only
            and not (ctx.quick() and fmt == "wdc" and max(len(d) for _, d in img["segs"]) > 20000)]
-    wl = corpus + [lines[i] for i in sel]
-    wi = nvlib.run_lines(ctx.harness, corpus, timeout=120) + [impl[i] for i in sel]
+    # the empty Memory (low = 0xffffffff, high = 0): ELF is the one writer with arithmetic on high - low + 1 outside a loop
+    extras = ["wr elf %s %s - %s %s" % (c, e, en, sy) for c, e, en, sy in (("msp430", "-", "-", "-"), ("arm", "b", "-", "a=1!,b=2"),
+              ("riscv64", "-", "100", "main=100!"), ("ps2_ee", "-", "0", "-"), ("avr8", "l", "-", "x=ffffffff!"))]
+    wl = corpus + extras + [lines[i] for i in sel]
+    wi = nvlib.run_lines(ctx.harness, corpus + extras, timeout=120) + [impl[i] for i in sel]
     wm = nvlib.run_lines(exe, wl, env=dict(os.environ), timeout=600)
     kinds = {}
     for l, a, b in zip(wl, wi, wm):
@@ -467,8 +487,8 @@ def correspondence(ctx, corr):
         low = G.low_high(img)[0]
         extra = " %x" % low if fmt == "bin" else ""
         rl.append("rd %s %s %s%s" % (fmt, EXT[fmt], nvlib.hexs(data), extra))
-        if fmt == "uf2":
-            rl.pop()          # read_uf2 is not modelled
+        if fmt in ("uf2", "elf"):
+            rl.pop()          # read_uf2 / read_elf: own streams below
             continue
         if fmt == "wdc":
             for _ in range(2):      # truncations and header damage
